@@ -38,7 +38,7 @@ def main():
          '`tools/confirm_seed.sh` (patch applies; demo fails with / passes without; related pinned tests still pass) and is stored under',
          f'`seeded/<id>/`. Column `before` = would the check have caught it as it was before the change was known ({nno} of {n}',
          'would not). For the round-2 changes of the non-physics properties the checks were hardened from the agents\' DESCRIPTIONS before',
-         'the first run, so `before` is by analysis of the then model space; for the round-2 physics properties (C01-C08, C11, C16, C18)',
+         'the first run, so `before` is by analysis of the then model space; for the round-2 physics properties (C01-C08, C11, C16, C18) and all of round 3',
          '`before` is the result of a first run of the quick tier. Every miss led to a change of the MODEL SPACE (scene options,',
          'boundary states, dtypes, sessions in one process), of an exclusion rule or of the harness protocol - never to a special case',
          'for the patch. After those changes the quick tier catches every change except C16-3 (needs about 128 environments x 1000',
